@@ -953,8 +953,10 @@ OccupiedIsLive ==
   \A c \in Colls : Quiescent(c) => st[c].fill = st[c].live
 
 \* C11: a row that is not live holds no value in any column (nothing is left behind for the next occupant)
+\* (D-dead-delete: a delete of an offset that another transaction has reserved clears the reservation; two in-flight inserts
+\* then hold the same offset, and the rollback of one frees the row the other has committed - its values stay behind)
 NoStaleValues ==
-  Excused({"D-write-dead-row", "D-failed-insert-applied"}) \/
+  Excused({"D-write-dead-row", "D-failed-insert-applied", "D-dead-delete"}) \/
   \A c \in Colls : NoLatch(c) =>
     \A n \in DOMAIN st[c].reg : st[c].has[n] \subseteq st[c].live
 
